@@ -24,6 +24,7 @@ CONSTANTS N,            \* nodes are 1..N
           Hs, Rs, Sums, \* exhaustive mode: heights, rounds, byte sums of the previous block hash
           MaxSum,       \* simulate mode: byte sum drawn from 0..MaxSum
           MaxFail,      \* at most this many proposers fail in a script
+          FailSum,      \* the byte sum used in the failure scripts of the exhaustive mode
           Sim           \* FALSE: every case is an initial state; TRUE: a behaviour builds one random case
 
 Node == 1..N
@@ -81,19 +82,20 @@ ImplChain(l, hh, rr, ss, loc, k) == ImplChainR(SortListing(l), hh, rr, ss, loc, 
 RECURSIVE Perms(_)
 Perms(S) == IF S = {} THEN {<<>>}
             ELSE UNION {{<<x>> \o p : p \in Perms(S \ {x})} : x \in S}
-Listings == UNION {Perms(S) : S \in (SUBSET Node) \ {{}}}
+ListingsOf(U) == UNION {Perms(S) : S \in (SUBSET U) \ {{}}}   \* an operator, so that TLC does not evaluate it in simulate mode
 
 Out == LET ch == Chain(Range(listing), h, r, hs, local, nfail) IN
        ToJson([listing |-> listing, order |-> AllByRank, h |-> h, r |-> r, hs |-> hs,
                local |-> local, nfail |-> nfail,
                first |-> ch[1], chain |-> ch, winner |-> Winner(ch, local, nfail)])
 
-InitAll == /\ listing \in Listings
+InitAll == /\ listing \in ListingsOf(Node)
            /\ target = Len(listing)
            /\ h \in Hs /\ r \in Rs /\ (h = 0 => r = 0)
            /\ hs \in Sums
            /\ local \in Range(listing) \cup {0}
            /\ nfail \in 0..(IF Len(listing) < MaxFail THEN Len(listing) ELSE MaxFail)
+           /\ (nfail > 0 => r = 0 /\ hs = FailSum)      \* failure scripts: every listing, local and height, one round and sum
            /\ phase = "ask"
            /\ step = Out
 
@@ -105,22 +107,27 @@ InitSim == /\ listing = <<>>
 
 Grow == /\ phase = "build"
           /\ Len(listing) < target
-          /\ \E n \in Node \ Range(listing) : listing' = Append(listing, n)
+          /\ listing' = Append(listing, RandomElement(Node \ Range(listing)))
           /\ UNCHANGED <<target, h, r, hs, local, nfail, phase, step>>
 
 Ask == /\ phase = "build"
        /\ Len(listing) = target
        /\ h' = RandomElement(1..60)
        /\ r' = RandomElement(0..20)
-       /\ hs' = RandomElement(0..MaxSum)
+       /\ hs' = RandomElement(0..(MaxSum \div 100)) * 100 + RandomElement(0..99)
        /\ local' = RandomElement(Range(listing) \cup {0})
        /\ nfail' = RandomElement(0..(IF target < MaxFail THEN target ELSE MaxFail))
-       /\ phase' = "ask"
-       /\ UNCHANGED <<listing, target>>
-       /\ step' = Out'
+       /\ phase' = "params"
+       /\ UNCHANGED <<listing, target, step>>
+
+(* the expected observables are computed in a step of their own, on the unprimed state *)
+Emit == /\ phase = "params"
+        /\ phase' = "ask"
+        /\ step' = Out
+        /\ UNCHANGED <<listing, target, h, r, hs, local, nfail>>
 
 Init == IF Sim THEN InitSim ELSE InitAll
-Next == Sim /\ (Grow \/ Ask)
+Next == Sim /\ (Grow \/ Ask \/ Emit)
 Spec == Init /\ [][Next]_vars
 
 ---------------------------------------------------------------------------------
